@@ -61,4 +61,14 @@ PROPS = {
         "assumptions": ["PGPredicate's own decomposition and conditioned() are exercised in the port-graph stage"],
         "anchors": ["constraint_tree.with_powerset", "string.to_constraints_tree"],
     },
+    "C03": {
+        "level": "proof",
+        "stages": ["e2e.str", "e2e.mat", "e2e.table"],
+        "oracle_ids": ["C03"],
+        "cone": ["STR", "MAT", "TAB", "BUILD", "CON", "RUN", "SINGLE"],
+        "rule": "random pattern sets (shared prefixes, duplicates, instances, empty patterns) with planted hosts; real ManyMatcher (Default / Never / Custom answer strings) vs real NaiveManyMatcher, per pattern id, as sets of complete match data; plus model-vs-implementation: exact replay of the build against the dumped automaton, model traversal on the dump, model baseline on the implementation's constraint vectors. Table domain: 5 constraint-tree strategies x random prerequisite DAGs x contract-conforming hosts. Non-trivial = at least one match, fuse or merge; distinct by input text.",
+        "trusted_base": TB_EXTERNAL + ["FxHasher in visit() modelled as injective (S5)"],
+        "assumptions": ["table hosts are generated contract-conforming (offers depend only on prerequisite values)"],
+        "anchors": [],
+    },
 }
